@@ -250,21 +250,118 @@ theorem groupOf_back (g : GroupRef) (h : g.Expressible) : groupOf g.name (g.uuid
     have : u ≠ [] := fun e => hu (by rw [e])
     simp [groupOf, this]
 
+/-! ### group actions: what comes back, for EVERY group list -/
+
+theorem recordedUuid_nameOnly (ms : List Str) (name : Str) :
+    recordedUuid (ms.map fun m => groupOf m []) name = none := by
+  induction ms with
+  | nil => rfl
+  | cons m ms ih =>
+    simp only [List.map_cons, recordedUuid]
+    rw [ih]
+    simp [groupOf]
+
+theorem recordedUuid_rowGroups (n o : Str) (ms : List Str) (name : Str) :
+    recordedUuid (groupOf n o :: ms.map fun m => groupOf m []) name =
+      if n = name then (groupOf n o).uuid else none := by
+  simp only [recordedUuid, recordedUuid_nameOnly]
+  by_cases ho : o = []
+  · simp [groupOf, ho]
+  · by_cases hn : n = name
+    · simp [groupOf, ho, hn]
+    · simp [groupOf, ho, hn]
+
+/-- the groups a row gives back, after the dictionary: the first with `obj_id`, every further
+non-blank name without attributes, with the first group's uuid if it has the first group's name -/
+def backGroups (g0 : GroupRef) (rest : List GroupRef) : List GroupRef :=
+  groupOf g0.name (g0.uuid.getD []) ::
+    ((rest.map (·.name)).filter (· ≠ [])).map fun m =>
+      { name := m, uuid := if g0.name = m then (groupOf g0.name (g0.uuid.getD [])).uuid else none, attrs := false }
+
+theorem resolve_rowGroups (n o : Str) (ms : List Str) :
+    resolveGroups (groupOf n o :: ms.map fun m => groupOf m []) =
+      groupOf n o :: ms.map fun m => { name := m, uuid := if n = m then (groupOf n o).uuid else none, attrs := false } := by
+  unfold resolveGroups
+  rw [List.map_cons, List.map_map]
+  congr 1
+  · rw [recordedUuid_rowGroups]; simp [groupOf]
+  · apply List.map_congr_left
+    intro m _
+    simp only [Function.comp, recordedUuid_rowGroups]
+    simp [groupOf]
+
+/-- **what a group action comes back as** — no hypothesis: every group list with a first group -/
+theorem roundTrip_addGroups_eq (g0 : GroupRef) (rest : List GroupRef) :
+    roundTrip (.addGroups (g0 :: rest)) = .ok [.addGroups (backGroups g0 rest)] := by
+  simp only [roundTrip, toFields, groupFields, ofFields, rowAction, rowNodeAction, classify_addToGroup,
+    classifyNode_addToGroup, List.map_cons, rowGroups, resolve_rowGroups, Option.toList, List.nil_append,
+    backGroups, List.cons_append]
+
+theorem roundTrip_removeGroups_eq (g0 : GroupRef) (rest : List GroupRef) (all : Bool) :
+    roundTrip (.removeGroups (g0 :: rest) all) = .ok [.removeGroups (backGroups g0 rest) false] := by
+  simp only [roundTrip, toFields, groupFields, ofFields, rowAction, rowNodeAction, classify_removeFromGroup,
+    classifyNode_removeFromGroup, List.map_cons, rowGroups, resolve_rowGroups, Option.toList, List.nil_append,
+    backGroups, List.cons_append]
+
+theorem names_nonblank {rest : List GroupRef} (h : ∀ g ∈ rest, g.TailOk) :
+    (rest.map (·.name)).filter (· ≠ []) = rest.map (·.name) := by
+  apply List.filter_eq_self.mpr
+  intro m hm
+  obtain ⟨g, hg, rfl⟩ := List.mem_map.mp hm
+  simpa using (h g hg).1
+
+/-- every name comes back, in order, for any first group and named further groups -/
+theorem backGroups_names (g0 : GroupRef) (rest : List GroupRef) (h : ∀ g ∈ rest, g.TailOk) :
+    (backGroups g0 rest).map (·.name) = (g0 :: rest).map (·.name) := by
+  simp only [backGroups, names_nonblank h, List.map_cons, List.map_map, groupOf]
+  congr 1
+
+theorem backGroups_forget (g0 : GroupRef) (rest : List GroupRef) (h : GroupsOkModTailUuids (g0 :: rest)) :
+    forgetTail (backGroups g0 rest) = forgetTail (g0 :: rest) := by
+  obtain ⟨h0, ht⟩ := h
+  simp only [backGroups, forgetTail, names_nonblank ht, groupOf_back g0 h0, List.map_map]
+  congr 1
+  apply List.map_congr_left
+  intro g hg
+  obtain ⟨_, ha⟩ := ht g hg
+  obtain ⟨name, uuid, attrs⟩ := g
+  simp only at ha
+  subst ha
+  rfl
+
+theorem backGroups_eq (g0 : GroupRef) (rest : List GroupRef) (h : GroupsOk (g0 :: rest)) :
+    backGroups g0 rest = g0 :: rest := by
+  obtain ⟨⟨h0, ht⟩, hu⟩ := h
+  simp only [backGroups, names_nonblank ht, groupOf_back g0 h0, List.map_map]
+  congr 1
+  conv => rhs; rw [← List.map_id rest]
+  apply List.map_congr_left
+  intro g hg
+  obtain ⟨_, ha⟩ := ht g hg
+  have hu' := hu g hg
+  obtain ⟨name, uuid, attrs⟩ := g
+  simp only [tailUuid] at ha hu'
+  subst ha
+  rw [hu']
+  simp only [Function.comp, id, GroupRef.mk.injEq, and_true, true_and]
+  by_cases e : g0.name = name
+  · simp [e]
+  · have e' : ¬ name = g0.name := fun x => e x.symm
+    simp [e, e']
+
 theorem rt_addGroups (gs : List GroupRef) (h : Expressible (.addGroups gs)) :
     roundTrip (.addGroups gs) = .ok [.addGroups gs] := by
-  have h' : OneGroup gs := h
+  have h' : GroupsOk gs := h
   match gs, h' with
-  | [g], hg =>
-    simp only [roundTrip, toFields, groupFields, ofFields, rowAction, rowNodeAction, classify_addToGroup,
-      classifyNode_addToGroup, List.map_cons, List.map_nil, groupOf_back g hg, Option.toList, List.nil_append]
+  | [], h' => exact absurd h'.1 (by simp [GroupsOkModTailUuids])
+  | g0 :: rest, h' => rw [roundTrip_addGroups_eq, backGroups_eq g0 rest h']
 
 theorem rt_removeGroups (gs : List GroupRef) (h : Expressible (.removeGroups gs false)) :
     roundTrip (.removeGroups gs false) = .ok [.removeGroups gs false] := by
-  have h' : OneGroup gs := h.1
+  have h' : GroupsOk gs := h.1
   match gs, h' with
-  | [g], hg =>
-    simp only [roundTrip, toFields, groupFields, ofFields, rowAction, rowNodeAction, classify_removeFromGroup,
-      classifyNode_removeFromGroup, List.map_cons, List.map_nil, groupOf_back g hg, Option.toList, List.nil_append]
+  | [], h' => exact absurd h'.1 (by simp [GroupsOkModTailUuids])
+  | g0 :: rest, h' => rw [roundTrip_removeGroups_eq, backGroups_eq g0 rest h']
 
 theorem rt_setRunResult (name value category : Str) (h : Expressible (.setRunResult name value category)) :
     roundTrip (.setRunResult name value category) = .ok [.setRunResult name value category] := by
@@ -569,32 +666,60 @@ theorem groupOf_eq (g : GroupRef) (name objId : Str) (h : groupOf name objId = g
   · simp [e]
   · simp [e]
 
+theorem groupsOkMod_of_forget (g0 : GroupRef) (rest : List GroupRef)
+    (h : forgetTail (backGroups g0 rest) = forgetTail (g0 :: rest)) : GroupsOkModTailUuids (g0 :: rest) := by
+  simp only [backGroups, forgetTail, List.cons.injEq, List.map_map] at h
+  obtain ⟨h1, h2⟩ := h
+  refine ⟨groupOf_eq g0 _ _ h1, ?_⟩
+  intro g hg
+  have hm : ({ g with uuid := none } : GroupRef) ∈ rest.map fun g => { g with uuid := none } :=
+    List.mem_map.mpr ⟨g, hg, rfl⟩
+  rw [← h2] at hm
+  obtain ⟨m, hmem, hme⟩ := List.mem_map.mp hm
+  have hne : m ≠ [] := by simpa using (List.mem_filter.mp hmem).2
+  simp only [Function.comp, GroupRef.mk.injEq] at hme
+  obtain ⟨hn, _, ha⟩ := hme
+  exact ⟨by rw [← hn]; exact hne, ha.symm⟩
+
+theorem groupsOk_of_back (g0 : GroupRef) (rest : List GroupRef)
+    (h : backGroups g0 rest = g0 :: rest) : GroupsOk (g0 :: rest) := by
+  have hmod : GroupsOkModTailUuids (g0 :: rest) := groupsOkMod_of_forget g0 rest (by rw [h])
+  refine ⟨hmod, ?_⟩
+  have h' := h
+  simp only [backGroups, names_nonblank hmod.2, List.cons.injEq, List.map_map] at h'
+  obtain ⟨h1, h2⟩ := h'
+  intro g hg
+  have hm : g ∈ rest := hg
+  rw [← h2] at hm
+  obtain ⟨g', hg', he⟩ := List.mem_map.mp hm
+  simp only [Function.comp, h1] at he
+  subst he
+  simp only [tailUuid]
+  by_cases e : g0.name = g'.name
+  · simp [e]
+  · have e' : ¬ g'.name = g0.name := fun x => e x.symm
+    simp [e, e']
+
 theorem ex_addGroups (gs : List GroupRef) (h : roundTrip (.addGroups gs) = .ok [.addGroups gs]) :
     Expressible (.addGroups gs) := by
-  show OneGroup gs
+  show GroupsOk gs
   cases gs with
   | nil => simp [roundTrip, toFields, groupFields] at h
   | cons g rest =>
-    simp only [roundTrip, toFields, groupFields, ofFields, rowAction, rowNodeAction, classify_addToGroup,
-      classifyNode_addToGroup, List.map_cons, Option.toList, List.nil_append, Except.ok.injEq,
-      List.cons.injEq, and_true, Act.addGroups.injEq] at h
-    obtain ⟨h1, h2⟩ := h
-    subst h2
-    exact groupOf_eq g _ _ h1
+    rw [roundTrip_addGroups_eq] at h
+    simp only [Except.ok.injEq, List.cons.injEq, and_true, Act.addGroups.injEq] at h
+    exact groupsOk_of_back g rest h
 
 theorem ex_removeGroups (gs : List GroupRef) (all : Bool)
     (h : roundTrip (.removeGroups gs all) = .ok [.removeGroups gs all]) :
     Expressible (.removeGroups gs all) := by
-  show OneGroup gs ∧ all = false
+  show GroupsOk gs ∧ all = false
   cases gs with
   | nil => simp [roundTrip, toFields, groupFields] at h
   | cons g rest =>
-    simp only [roundTrip, toFields, groupFields, ofFields, rowAction, rowNodeAction, classify_removeFromGroup,
-      classifyNode_removeFromGroup, List.map_cons, Option.toList, List.nil_append, Except.ok.injEq,
-      List.cons.injEq, and_true, Act.removeGroups.injEq] at h
-    obtain ⟨⟨h1, h2⟩, h3⟩ := h
-    subst h2
-    exact ⟨groupOf_eq g _ _ h1, h3.symm⟩
+    rw [roundTrip_removeGroups_eq] at h
+    simp only [Except.ok.injEq, List.cons.injEq, and_true, Act.removeGroups.injEq] at h
+    exact ⟨groupsOk_of_back g rest h.1, h.2.symm⟩
 
 theorem ex_setRunResult (name value category : Str)
     (h : roundTrip (.setRunResult name value category) = .ok [.setRunResult name value category]) :
